@@ -105,7 +105,11 @@ def run(ctx, proofs_ok):
         fams = ctx.rng.choice([["set"], ["list"], ["key", "str"], ["zset"], ["set", "list", "key", "str"]])
         pats = ctx.rng.choice(pats_pool)
         ops = gen_api.stream(ctx.rng, fams, 150 if q else 400, dump_every=0, realtime=False)
+        # both registration orders: the narrow watcher before and after the `*` watcher (records of one command are
+        # handed to the watchers in registration order - what one watcher is given must not depend on the others)
         out = ["open a mem", "watch 2a 2a2f2a", "watchp " + " ".join(p.encode().hex() for p in pats)]
+        if i % 2:
+            out = [out[0], out[2], out[1]]
         for op in ops[1:]:
             if op == "dump" or op.startswith("sleep"):
                 continue
